@@ -137,7 +137,8 @@ CHECKS["C03"] = {
               "and the established envelope / RemoteNode must announce exactly the registered node. Scripts run over TCP (in-memory connections), TCP+TLS and the in-process transport, against a bare "
               "ServerChannel, a Server and a ServerBuilder-built server, with peers that stay, half-close, reset, or vanish right after their last envelope. "
               "Through the builder the peer also sends authenticating envelopes that name a scheme but carry no authentication object at all: no session may come of them under a scheme that needs credentials. "
-              "In a third of the builder cases a second ServerBuilder is configured (with other schemes) while the first server is serving: that changes nothing for the first."),
+              "In a third of the builder cases a second ServerBuilder is configured (with other schemes) while the first server is serving: that changes nothing for the first. "
+              "The scheme a session is established under is judged against the offer the peer actually read off the connection (the scheme options of the authentication request it was sent), not only against the configured list."),
     "note": "History invariant over callback log + envelopes seen by the scripted peer + exported channel state; scripts/configurations sampled and depth-bounded.",
     "technique": "property-based testing (rapid) + exhaustive depth-bounded script enumeration against a history invariant, in virtual time",
     "rule": ("cases as in C07 (direct and Server modes; enumeration depth 5/6 direct, 4/5 under Server), plus the ServerBuilder entry point over the in-process transport (drawn sets of enabled schemes x 1-3 "
@@ -161,7 +162,8 @@ CHECKS["C14"] = {
               "it after the release bound, neither Established nor Finished may fire, and a refused client must see the end of its connection. Over TCP, TCP+TLS and the in-process transport; "
               "peers that half-close, stay, stay silent past the deadline, reset, or vanish right after their last envelope. "
               "Callback errors come in two flavours: plain, and wrapping a context error although the server's own context is alive. "
-              "Plus the library's WebSocket listeners (ws and wss) over loopback, real time: a raw peer fails its handshake at three points (right after connecting, after its new session, during authentication) in four ways (a WebSocket close frame, then waiting for the server to drop the connection; garbage; a wrong session id; a non-session envelope): it sees the end of its connection within 4 s, no Established callback, no goroutine left serving it."),
+              "Plus the library's WebSocket listeners (ws and wss) over loopback, real time: a raw peer fails its handshake at three points (right after connecting, after its new session, during authentication) in four ways (a WebSocket close frame, then waiting for the server to drop the connection; garbage; a wrong session id; a non-session envelope): it sees the end of its connection within 4 s, no Established callback, no goroutine left serving it. "
+              "One case in five or six has the peer's connection reset while the Authenticate callback runs (the credentials have been read, the reply cannot be written). The goroutine census counts whatever is still inside the connection's transport (ctxConn, tcpTransport), not only the handshake and receiver goroutines."),
     "note": "Server runs over the real TCP transport on in-memory connections (closure observed exactly on the server end); serving goroutines found by stack census. A real-time watchdog outside the bubbles turns a library goroutine that spins or waits for a lock for ever (which stops a bubble's clock) into a violation with the stack frame in its signature instead of a timeout.",
     "technique": "fault enumeration over model-classified failing scripts (exhaustive to a depth bound) + rapid, in virtual time",
     "rule": ("cases as in C07 under a real Server, each with the peer ending by EOF (vanishing) or staying connected (wait), rapid adds silence. Judged only when the model "
@@ -184,7 +186,8 @@ CHECKS["C10"] = {
               "Authenticate callback must never run, and no authenticating/established session or client credential may appear in cleartext, while the server transport "
               "is unencrypted (observed on the callback log, the scripted peer, and the raw byte capture of both directions). "
               "The compression lists are drawn too: the usual one, one with an option the transport lacks, and one that shares nothing with what the transport supports. "
-              "Plus the ServerBuilder entry point over the library's loopback TCP listener with a TLS configuration: EncryptionOptions(TLS), drawn CompressionOptions, other builders of the same process configured with none before and after, and a raw peer that chooses none, chooses tls without performing the handshake, or skips negotiation: no authenticating / established session in cleartext, no authenticator call, no Established callback."),
+              "Plus the ServerBuilder entry point over the library's loopback TCP listener with a TLS configuration: EncryptionOptions(TLS), drawn CompressionOptions, other builders of the same process configured with none before and after, and a raw peer that chooses none, chooses tls without performing the handshake, or skips negotiation: no authenticating / established session in cleartext, no authenticator call, no Established callback. "
+              "A third of the cases run after three ordinary negotiations elsewhere in the same process whose offer contained none and whose client chose it: nothing one negotiation leaves behind counts for the next."),
     "note": "Real TLS (crypto/tls) runs over the in-memory connection; the cleartext/TLS boundary is read off the captured bytes.",
     "technique": "exhaustive enumeration of configurations x client behaviours + rapid scripts, with an invariant over callback log and captured wire bytes, in virtual time",
     "rule": ("every case is non-trivial by construction (policy excludes none, transport can do TLS); enumerated: 6 scheme lists x 2 registration modes x 2 entry points x scripts "
@@ -210,7 +213,8 @@ CHECKS["C08"] = {
               "in answer to an authentication request, connection closed after finished/failed - at whatever point of the handshake the terminal envelope comes and whether or not EstablishSession then returns an error (server staying connected). "
               "Channel buffer sizes 0, 1 and 4 are drawn; scripts that go on after establishment: once a later session envelope that is not 'established' has been taken, the channel no longer reports an established session "
               "(judged when the unconsumed data in front of that envelope fits the buffers). "
-              "The same scripts also through the high-level Client (every script of up to 2, thorough 3, symbols, and drawn ones): Client.Establish never panics - nor do the Client's own goroutines - and returns nil only when the server's last word was an established session."),
+              "The same scripts also through the high-level Client (every script of up to 2, thorough 3, symbols, and drawn ones): Client.Establish never panics - nor do the Client's own goroutines - and returns nil only when the server's last word was an established session. "
+              "The client alphabet has an established session that carries a delegation node (pp) next to its from: the remote node adopted is still the envelope's from."),
     "note": "Symbols are sent only while the client is provably waiting (synctest.Wait), so 'last word' is exact; clauses are exactly those of the statement.",
     "technique": "exhaustive depth-bounded script enumeration with dynamic pruning + rapid (stateful generation) against invariants over the observed history, in virtual time",
     "rule": ("case = (selectors, authenticator, client TLS config, server script, end). Enumeration depth 3 (quick) / 4 (thorough), a script is only extended while the client still consumes "
@@ -265,7 +269,8 @@ CHECKS["C06"] = {
               "side shows nothing but session envelopes; in established they succeed and the peer sees exactly those envelopes. Receive direction: each data kind is injected at every position "
               "of the handshake on both roles: no handler invocation, nothing on inbound streams, and the handshake never ends established. Server role also: while FinishSession / FailSession is still "
               "in progress (terminal envelope on the wire, the call waiting for its receiver on TCP) a send from another goroutine must fail and emit nothing. "
-              "Client role, stages after establishment: the same sends also through the Sender a dispatch-loop handler was given while the session was established and kept."),
+              "Client role, stages after establishment: the same sends also through the Sender a dispatch-loop handler was given while the session was established and kept. "
+              "Channel buffer sizes none, one and four for both roles, and the stage in which the server finishes the session unasked."),
     "note": "Stage x role x operation is enumerated completely; the 'finishing' stage and the instant between the server's state change and its established envelope are deliberately not asserted (DESIGN.md).",
     "technique": "exhaustive enumeration of (role, stage, operation) and of injection positions, plus rapid orderings, against wire-capture and return-value oracles, in virtual time",
     "rule": ("stages: server {new, negotiating, authenticating, inside Authenticate, inside Register, established, finished, failed during handshake, failed after established, peer closed}; client "
@@ -300,7 +305,8 @@ CHECKS["C12"] = {
               "the receiver may ask with short deadlines and ask again (an envelope is lost only if the receiver kept asking). "
               "TLS cases draw the protocol version (1.3, or capped at 1.2); the sender may close its transport right after its last send (under TLS the close notification follows the data at once) - everything reported sent still arrives; "
               "the receiver may run with a read limit just above the largest frame of the stream (it bounds one envelope, not the connection); a receiver that stays away for one to three write polls while the sender's context lives on. "
-              "Under TLS (1.2 and 1.3) with a sender that closes after its last send, a transient read timeout is placed at each of the last 70 reads for fragment sizes 2-13 and 64 (crypto/tls can hand the last data over together with the timeout that interrupts the reading of the close notification)."),
+              "Under TLS (1.2 and 1.3) with a sender that closes after its last send, a transient read timeout is placed at each of the last 70 reads for fragment sizes 2-13 and 64 (crypto/tls can hand the last data over together with the timeout that interrupts the reading of the close notification). "
+              "A watchdog turns a library goroutine that spins (which freezes the virtual clock) into a verdict instead of a timeout."),
     "note": "Short writes / write timeouts are not injected under TLS (crypto/tls makes any write error permanent, so no retry semantics apply there).",
     "technique": "fault enumeration (exhaustive split points / short-write lengths / cut offsets for small streams) + rapid fault plans, sent-vs-received sequence oracle, in virtual time",
     "rule": ("case = (stream, write fault plan on the sender's connection, read fault plan on the receiver's, global read chunk, coalescing, pipe capacity, TLS). Non-trivial: a fault fired or a frame "
@@ -323,7 +329,8 @@ CHECKS["C16"] = {
               "valid envelope: an unknown event, or members that add up to no kind) of every size up to L are interleaved: each must be answered with an error and costs later frames nothing. "
               "A frame of L/2 ... 10L also arrives in pieces (1, L/2, L-1, L, L+1 bytes, 1-24 of them, and drawn piece lists) while the receiver gives up on a 100 ms context between the pieces and asks again "
               "(virtual time): whatever the transport does after a given-up receive, a frame > 2L is never returned, one Receive takes at most L bytes, and what is returned was sent. "
-              "The loopback listener cases run with and without a TLS configuration on the listener."),
+              "The loopback listener cases run with and without a TLS configuration on the listener. "
+              "Under the default limit (nothing configured): the boundary sizes, and streams of 9-14 MiB of frames within the limit (in-memory, traced, through the loopback listener with and without TLS)."),
     "note": "The unit is the frame (JSON text plus the encoder's newline). Bytes consumed are counted on the in-memory connection; not measured for the loopback listener cases.",
     "technique": "boundary-value enumeration + rapid streams with a per-call consumption counter on the injected connection",
     "rule": ("case = (limit, frame sizes, read chunk, coalesced?, via hook|listener). Non-trivial: a frame > L occurs, or >=2 coalesced frames; for the given-up cases: a frame > L and at least one receive that ended on its context with part of the frame taken. Distinct by SHA-1 of the case. Default 8 MiB limit only in the thorough tier."),
@@ -371,7 +378,8 @@ CHECKS["C20"] = {
               "drawn position; handlers failing at their j-th invocation) x inbound sequences of 1-60 mixed envelopes, driven through ListenServer, ListenClient and a real Server over the in-process "
               "and TCP transports, compared with a first-match dispatch model per kind: the earliest registered matching handler, exactly once, with the envelope as sent; nothing for unmatched "
               "envelopes while later ones are still dispatched; after a handler error no further invocation, Listen returns that error, and under Server the client observes a finished session. "
-              "Plus all tables of up to 3 handlers over 5 predicate shapes for each kind (exhaustive). Plus (TestC20Builder) the ping auto-reply of ServerBuilder as one more request handler: every registration order of up to 2 (thorough: 3) recording handlers (catch-all, ping only, everything but ping, never) around AutoReplyPings(), with pings and other requests on a real in-process session: each request reaches exactly the first handler that accepts it."),
+              "Plus all tables of up to 3 handlers over 5 predicate shapes for each kind (exhaustive). Plus (TestC20Builder) the ping auto-reply of ServerBuilder as one more request handler: every registration order of up to 2 (thorough: 3) recording handlers (catch-all, ping only, everything but ping, never) around AutoReplyPings(), with pings and other requests on a real in-process session: each request reaches exactly the first handler that accepts it. "
+              "A third of the listening-side cases first run ProcessCommand calls that are given up unanswered, with the ids of response commands that arrive later: those responses are dispatched like any other."),
     "note": "Cross-kind order is not asserted (the dispatch loop selects over four streams); per kind the invocation log must be a prefix of the model's, complete when no handler failed.",
     "technique": "model-based property testing (rapid) + exhaustive small tables against a first-match dispatch model, in virtual time",
     "rule": "case = (handler tables, inbound sequence, entry point, transport). Non-trivial: some envelope skips the first handler of its kind in a table with >=2 handlers. Distinct by SHA-1 of the case.",
@@ -396,7 +404,8 @@ CHECKS["C05"] = {
               "(enumerated in TestC05SendFails and drawn as a prefix in TestC05); once a failed write has ended the session the rest of the history is not judged. "
               "Steps also include a response racing with the cancellation of its request (either outcome, never a stuck goroutine) and two calls with one id started in the same instant "
               "(exactly one owns the id and gets the response, the other is refused). "
-              "A quarter of the drawn histories end with the peer hanging up under the calls still pending; a call that returns neither a response nor an error is a violation in every history."),
+              "A quarter of the drawn histories end with the peer hanging up under the calls still pending; a call that returns neither a response nor an error is a violation in every history. "
+              "Slow answers: responses that come 4 s to 61 s after the request complete the calls whose contexts are still alive (none, or a deadline beyond the answer) and only those; one generated pause in five is longer than any interval the library waits for on its own."),
     "note": "Staging uses synctest.Wait after every step, so races between a response and a cancellation at the same instant are not generated (as in DESIGN.md).",
     "technique": "stateful model-based property testing (rapid) + exhaustive permutations against a pending-command table model, in virtual time",
     "rule": "case = (role, transport, step list). Non-trivial: >=2 calls in flight with a burst, or any response that matches no pending call (unknown / duplicate / late). Distinct by SHA-1 of the case.",
@@ -434,7 +443,8 @@ CHECKS["C17"] = {
               "at the same time; handlers record the context's session id / remote node / local node and reply through the Sender they were handed: context values must be those of the sending client's "
               "session, every reply must arrive at the client that sent the tag and at no other, each envelope is handled exactly once, session ids are pairwise distinct and equal to ClientChannel.ID() "
               "and to the ids (and channels) passed to the Established callback, and each client is announced its own registered node. Plus (TestC17Ping) 2-16 sessions of a ServerBuilder server with AutoReplyPings, over the in-process transport and loopback TCP, pinging at the same time (50-600 ProcessCommand calls each): every call gets the response to its own request addressed to its own node, none is lost, nothing unsolicited surfaces. "
-              "Plus servers without a Register callback (ServerBuilder and plain configuration): bursts of 2, 8 and 32 clients released by a barrier register at the same instant; every client is established under its own name, no address is announced twice, and each handler is told its own session's remote node."),
+              "Plus servers without a Register callback (ServerBuilder and plain configuration): bursts of 2, 8 and 32 clients released by a barrier register at the same instant; every client is established under its own name, no address is announced twice, and each handler is told its own session's remote node. "
+              "Half of the cases end with the server pushing ONE notification value and ONE message value, neither naming a destination, to every session it has: what arrives on a session names nobody or that session's own node."),
     "note": "Schedules are sampled; in-process dials are serialised by the harness because the library's in-process listener registry is an unsynchronised global (not part of any listed property).",
     "technique": "property-based testing (rapid) of concurrent multi-session workloads with a per-tag routing oracle; virtual time and real sockets",
     "rule": "case = (per-client transport and op list, channel buffer). Non-trivial: >=3 clients on >=2 transports. Distinct by SHA-1 of the case.",
@@ -462,7 +472,8 @@ CHECKS["C13"] = {
               "Plus the high-level Client against scripted servers (every script of up to 2, thorough 3, symbols of the client-handshake alphabet and drawn ones, a third of them announcing the established session early): "
               "when the handshake in progress has taken an established session, then after Client.Close the Client's end of the connection is closed and no library goroutine is left, whatever Establish returned. "
               "Server initiators are also drawn busy: their dispatch loop sits in a handler and more notifications than their buffers hold have arrived when they end the session; every terminating call is bounded (one that never returns is a violation, not a hang). "
-              "Plus, over loopback WebSocket, secure WebSocket and TCP pairs: the server has a send of a large message given up through its context while the client is not reading, then finishes, fails or closes the session: its transport is disconnected when the call returns, its receiver ends, and the client, once it reads again, is not left waiting on its connection."),
+              "Plus, over loopback WebSocket, secure WebSocket and TCP pairs: the server has a send of a large message given up through its context while the client is not reading, then finishes, fails or closes the session: its transport is disconnected when the call returns, its receiver ends, and the client, once it reads again, is not left waiting on its connection. "
+              "Plus, over real TCP (with and without TLS): the server finishes or fails the session while a burst it has already sent still waits in its socket for a client with a 64 KiB receive buffer that starts consuming only after the terminating call has returned (and sends nothing itself): the client receives every message sent before the end, then the terminal session. And with the high-level Client as the observing side, the Client lets go of the ended session's connection on its own, before the application closes it."),
     "note": "Schedules are sampled; the terminating call's own return value is not judged (under TLS it can report a close_notify write error after a clean finish). Server-side transports are only visible on in-memory connections.",
     "technique": "property-based testing (rapid) over (initiator, moment, transport, buffers, wiring) with state / stream-closure / goroutine-census oracles; virtual time plus real sockets",
     "rule": "case = (transport, wiring, initiator, buffers, traffic counts, termination moment). Non-trivial: termination with traffic still to be sent, or initiated by the server side, or buffer 0. Distinct by SHA-1 of the case.",
